@@ -10,9 +10,16 @@
       queue order) on a generated cluster: the pending jobs, and the UIDs of the
       placed jobs in the order of their first allocation; the quotas and limits of
       all queues, the running jobs, for every job the spec.preemptibility it was
-      given and the Preemptibility the snapshot holds, and for every pending job
-      the verdicts of the real Session.IsJobOverQueueCapacityFn and
-      Session.IsNonPreemptibleJobOverQueueQuotaFn when the session opens. *)
+      given and the Preemptibility the snapshot holds, and for every eligible
+      pending job the verdicts of the real Session.IsJobOverQueueCapacityFn and
+      Session.IsNonPreemptibleJobOverQueueQuotaFn when the session opens.
+      [jobs] holds every ready pod group with a pending pod, "ghosts" included
+      (pod groups whose queue is missing from the snapshot, whose queue's parent
+      is missing, or whose queue is not a leaf); [coll] is what the real
+      utils.JobsOrderByQueues hands out, pop by pop, after the real
+      InitializeWithJobs over the session's pod groups (options of the allocate
+      action), and [pops] the jobs the allocate action itself attempted, in
+      order (one call of the job-level capacity gate per popped job). *)
 From KaiV Require Export Run.Prelude Model.JobOrder Model.JobOrderSpec Model.QuotaGate Model.QuotaGateSpec.
 Open Scope Z_scope.
 
@@ -35,7 +42,8 @@ Inductive case :=
 | CPQ (maxsize : Z) (ops : list pqop) (obs : list (option Z))
 | CJO (qs : list qinfo) (depth : Z) (ops : list joop) (obs : list (option Z))
 | CAL (qs : list qinfo) (depth : Z) (jobs : list job) (order : list Z)
-      (quotas : qstate) (running : list job) (pobs : list pre_obs) (gobs : list gate_obs).
+      (quotas : qstate) (running : list job) (pobs : list pre_obs) (gobs : list gate_obs)
+      (coll pops : list Z).
 
 Definition set_prio (j : job) (p : Z) : job :=
   {| j_uid := j_uid j; j_queue := j_queue j; j_prio := p; j_subgroups := j_subgroups j;
@@ -99,6 +107,12 @@ Definition al_model_order (qs : list qinfo) (depth : Z) (jobs : list job) (order
 
 Definition job_of (jobs : list job) (u : Z) : option job := find (fun j => j_uid j =? u) jobs.
 
+(** the jobs the model's action pops, in order, when nothing can be placed: the
+    collection ([initialize]: ghosts skipped one by one) drained by PopNextJob *)
+Definition al_model_pops (qs : list qinfo) (depth : Z) (jobs : list job) : res (list job) :=
+  r <- allocate qs h_qord depth (fun _ (c : unit) => None) (S (List.length jobs)) jobs tt ;;
+  Ok (map fst r).
+
 Definition per_leaf_agree (qs : list qinfo) (jobs : list job) (model : list job) (order : list Z) : bool :=
   forallb (fun qi =>
              let q := qi_id qi in
@@ -125,11 +139,12 @@ Definition pre_agree (jobs : list job) (pobs : list pre_obs) : bool :=
                        | None => false
                        end) pobs.
 
-(** the modelled gates on the usage accounted from the running jobs give the real verdicts *)
-Definition gate_agree (quotas : qstate) (running jobs : list job) (gobs : list gate_obs) : bool :=
+(** the modelled gates on the usage accounted from the running jobs give the real
+    verdicts (asked for every eligible pending job; a ghost has no queue to ask about) *)
+Definition gate_agree (qs : list qinfo) (quotas : qstate) (running jobs : list job) (gobs : list gate_obs) : bool :=
   match account_all is_preemptible_job quotas running with
   | Ok st =>
-      forallb (fun j => existsb (fun o => go_uid o =? j_uid j) gobs) jobs
+      forallb (fun j => negb (eligible qs j) || existsb (fun o => go_uid o =? j_uid j) gobs) jobs
       && forallb (fun o => match job_of jobs (go_uid o) with
                            | Some j => res_verdict_eqb (job_over_queue_capacity st j) (go_capacity o)
                                        && res_verdict_eqb (np_job_over_quota st j) (go_np_quota o)
@@ -142,13 +157,19 @@ Definition model_agrees (k : case) : bool :=
   match k with
   | CPQ max ops obs => res_eqb (pq_run max [] ops) obs
   | CJO qs depth ops obs => res_eqb (jo_run qs depth jo_empty ops) obs
-  | CAL qs depth jobs order quotas running pobs gobs =>
+  | CAL qs depth jobs order quotas running pobs gobs coll pops =>
       match al_model_order qs depth jobs order with
       | Ok m => per_leaf_agree qs jobs m order
       | _ => false
       end
       && pre_agree (jobs ++ running) pobs
-      && gate_agree quotas running jobs gobs
+      && gate_agree qs quotas running jobs gobs
+      (* the collection: what each leaf queue hands out, in order, is what the model's does *)
+      && match al_model_pops qs depth jobs with
+         | Ok m => per_leaf_agree qs jobs m coll && per_leaf_agree qs jobs m pops
+                   && (List.length m =? List.length coll)%nat && (List.length m =? List.length pops)%nat
+         | _ => false
+         end
   end.
 
 (** ** the property evaluated on what the real code returned *)
@@ -220,6 +241,58 @@ Definition al_monitor (jobs : list job) (order : list Z) : bool :=
              negb (memz (j_uid b) order)
              || forallb (fun a => negb (comparable a b && job_less a b) || memz (j_uid a) order) jobs) jobs.
 
+(** ** the collection of a cycle, on what the real code popped *)
+(** the ideal collection: leaf queue [q] keeps the [depth] best eligible jobs of
+    [q], sorted by the comparator chain (declarative: [ideal_push] does not know
+    the heap; ghosts are not eligible and never enter) *)
+Definition collect_ideal (qs : list qinfo) (depth : Z) (jobs : list job) : leaves :=
+  fold_left (fun ls j =>
+               if eligible qs j
+               then set_key (j_queue j) (ideal_push job_less depth (leaf_get ls (j_queue j)) j) ls
+               else ls) jobs [].
+
+Fixpoint drain (ls : leaves) (pops : list Z) : option leaves :=
+  match pops with
+  | [] => Some ls
+  | u :: r => match pop_uid ls u with Some ls' => drain ls' r | None => None end
+  end.
+
+Definition all_drained (ls : leaves) : bool :=
+  forallb (fun p => match snd p with [] => true | _ => false end) ls.
+
+(** every pop hands out the least job left of some leaf queue (so within a leaf:
+    priority, then FIFO), and when the pops end every eligible job (that a bounded
+    leaf keeps) has been popped exactly once; no ghost, no running job, no job
+    twice *)
+Definition popped_exactly_eligible (qs : list qinfo) (depth : Z) (jobs : list job) (pops : list Z) : bool :=
+  match drain (collect_ideal qs depth jobs) pops with
+  | Some ls => all_drained ls
+  | None => false
+  end.
+
+(** [ua] occurs in [l], and before the first occurrence of [ub] *)
+Fixpoint seen_before (ua ub : Z) (l : list Z) : bool :=
+  match l with
+  | [] => false
+  | x :: r => if x =? ua then true else if x =? ub then false else seen_before ua ub r
+  end.
+
+(** comparable pairs: the job the chain orders first (higher priority, then older)
+    is attempted, and attempted first, whenever the other one is attempted *)
+Definition attempt_order_ok (jobs : list job) (pops : list Z) : bool :=
+  forallb (fun b =>
+             negb (memz (j_uid b) pops)
+             || forallb (fun a => negb (comparable a b && job_less a b) || seen_before (j_uid a) (j_uid b) pops) jobs)
+          jobs.
+
+(** a job is placed only by an attempt *)
+Definition placed_were_attempted (order pops : list Z) : bool := forallb (fun u => memz u pops) order.
+
+Definition collection_monitor (qs : list qinfo) (depth : Z) (jobs : list job) (order coll pops : list Z) : bool :=
+  popped_exactly_eligible qs depth jobs coll && popped_exactly_eligible qs depth jobs pops
+  && attempt_order_ok jobs coll && attempt_order_ok jobs pops
+  && placed_were_attempted order pops.
+
 (** the real gates do not tell identical workloads apart: the verdicts observed at
     session open are equal on every comparable pair, whatever the priorities *)
 Definition gate_monitor (jobs : list job) (gobs : list gate_obs) : bool :=
@@ -236,7 +309,8 @@ Definition monitor_ok (k : case) : bool :=
   match k with
   | CPQ max ops obs => pq_monitor max [] ops obs
   | CJO qs depth ops obs => jo_monitor qs depth [] ops obs
-  | CAL _ _ jobs order _ _ _ gobs => al_monitor jobs order && gate_monitor jobs gobs
+  | CAL qs depth jobs order _ _ _ gobs coll pops =>
+      al_monitor jobs order && gate_monitor jobs gobs && collection_monitor qs depth jobs order coll pops
   end.
 
 Definition run_mismatches (cs : list (nat * case)) : list nat := failing (fun k => negb (model_agrees k)) cs.
